@@ -178,6 +178,9 @@ class World:
                 atoms = self.ref_read(ra, s, s + n)
                 v = self.state.mslice(s, n) if self.state is not None else a.slice(s, s + n)
                 self.ref_expand(ra, s, n)
+                if v is a:
+                    # a read is a snapshot: handing out the live vector would make the write below copy the vector onto itself
+                    raise Disagree("alias", f"reading [{s}, {s + n}) returned the vector object itself, not a copy")
             elif src == "bv1":
                 data = bytes((0x50 + self.step * 7 + i) % 256 for i in range(n))
                 v, atoms = BV(data), list(data)
